@@ -6,6 +6,7 @@ CONSTANTS
   MaxOther = 100000
   MaxRefresh = 100000
   RoundSize = 1
+  Batch = FALSE
   MinB = 1
   MaxB = 2
   Variant = "fixed"
